@@ -1,3 +1,6 @@
+#[cfg(feature = "verif")]
+#[allow(unused_imports)]
+use crate::verif::{core, std};
 use crate::{
     backoff::{self, get_parallelism},
     pointer::KanalPtr,
@@ -136,6 +139,8 @@ impl<T> Signal<T> {
         match &self.waker {
             KanalWaker::Sync(waker) => {
                 // waker is not shared as the state is not `LOCKED_STARVATION`
+                #[cfg(feature = "verif")]
+                crate::verif::write(waker.get() as usize, core::mem::size_of::<Option<Thread>>());
                 unsafe {
                     *waker.get() = Some(std::thread::current());
                 }
@@ -146,6 +151,8 @@ impl<T> Signal<T> {
                     Ordering::Acquire,
                 ) {
                     Ok(_) => loop {
+                        #[cfg(feature = "verif")]
+                        crate::verif::note(crate::verif::notes::PARKED, self as *const Self as usize);
                         std::thread::park();
                         let v = self.state.load(Ordering::Acquire);
                         if v < LOCKED {
@@ -196,6 +203,11 @@ impl<T> Signal<T> {
     #[inline(always)]
     #[cfg(feature = "async")]
     pub(crate) fn register_waker(&mut self, waker: &Waker) {
+        #[cfg(feature = "verif")]
+        crate::verif::write(
+            &self.waker as *const KanalWaker as usize,
+            core::mem::size_of::<KanalWaker>(),
+        );
         self.waker = KanalWaker::Async(waker.clone())
     }
 
@@ -203,6 +215,11 @@ impl<T> Signal<T> {
     #[inline(always)]
     #[cfg(feature = "async")]
     pub(crate) fn will_wake(&self, waker: &Waker) -> bool {
+        #[cfg(feature = "verif")]
+        crate::verif::read(
+            &self.waker as *const KanalWaker as usize,
+            core::mem::size_of::<KanalWaker>(),
+        );
         match &self.waker {
             KanalWaker::Async(w) => w.will_wake(waker),
             KanalWaker::Sync(_) | KanalWaker::None => unreachable!(),
@@ -228,15 +245,26 @@ impl<T> Signal<T> {
                     .compare_exchange(LOCKED, state, Ordering::Release, Ordering::Acquire)
                     .is_err()
                 {
+                    #[cfg(feature = "verif")]
+                    crate::verif::read(waker.get() as usize, core::mem::size_of::<Option<Thread>>());
                     let thread = (*waker.get()).as_ref().unwrap().clone();
                     (*this).state.store(state, Ordering::Release);
+                    #[cfg(feature = "verif")]
+                    crate::verif::note(crate::verif::notes::WAKE_SYNC_UNPARK, this as usize);
                     thread.unpark();
                 }
             }
             #[cfg(feature = "async")]
             KanalWaker::Async(w) => {
+                #[cfg(feature = "verif")]
+                crate::verif::read(
+                    &(*this).waker as *const KanalWaker as usize,
+                    core::mem::size_of::<KanalWaker>(),
+                );
                 let w = w.clone();
                 (*this).state.store(state, Ordering::Release);
+                #[cfg(feature = "verif")]
+                crate::verif::note(crate::verif::notes::WAKE_ASYNC, this as usize);
                 w.wake();
             }
             #[cfg(feature = "async")]
@@ -248,6 +276,8 @@ impl<T> Signal<T> {
     /// Safety: it's only safe to be called only once on the receive signals
     /// that are not terminated
     pub(crate) unsafe fn send(this: *const Self, d: T) {
+        #[cfg(feature = "verif")]
+        crate::verif::note(crate::verif::notes::HANDOFF_WRITE, this as usize);
         (*this).ptr.write(d);
         Self::wake(this, UNLOCKED);
     }
@@ -265,6 +295,8 @@ impl<T> Signal<T> {
     /// Safety: it's only safe to be called only once on send signals that are
     /// not terminated
     pub(crate) unsafe fn recv(this: *const Self) -> T {
+        #[cfg(feature = "verif")]
+        crate::verif::note(crate::verif::notes::HANDOFF_READ, this as usize);
         let r = (*this).ptr.read();
         Self::wake(this, UNLOCKED);
         r
@@ -274,6 +306,8 @@ impl<T> Signal<T> {
     /// Safety: it's only safe to be called only once on send/receive signals
     /// that are not finished or terminated
     pub(crate) unsafe fn terminate(this: *const Self) {
+        #[cfg(feature = "verif")]
+        crate::verif::note(crate::verif::notes::TERMINATE, this as usize);
         Self::wake(this, TERMINATED);
     }
 
@@ -287,7 +321,22 @@ impl<T> Signal<T> {
 
     /// Returns signal terminator for other side of channel
     pub(crate) fn get_terminator(&self) -> SignalTerminator<T> {
+        #[cfg(feature = "verif")]
+        crate::verif::publish(
+            self as *const Self as usize,
+            core::mem::size_of::<Self>(),
+            unsafe { self.ptr.verif_slot() },
+            core::mem::size_of::<T>(),
+        );
         (self as *const Signal<T>).into()
+    }
+}
+
+/// End of life of a signal, reported to the verification runtime.
+#[cfg(feature = "verif")]
+impl<T> Drop for Signal<T> {
+    fn drop(&mut self) {
+        crate::verif::retire(self as *const Self as usize, core::mem::size_of::<Self>());
     }
 }
 
@@ -300,6 +349,11 @@ impl<T> From<*const Signal<T>> for SignalTerminator<T> {
 }
 
 impl<T> SignalTerminator<T> {
+    /// Address of the signal (verification hook).
+    #[cfg(feature = "verif")]
+    pub(crate) fn verif_addr(&self) -> usize {
+        self.0 as usize
+    }
     pub(crate) unsafe fn send(self, data: T) {
         Signal::send(self.0, data)
     }
